@@ -19,8 +19,17 @@
     [addressed] the documented one (Spec/MCrewSpec.v).  They agree except on
     lists of ids and "*" (D12, a known finding): the full statement with
     [addressed] is refuted by [C14_mcrew_list_target_refuted], the proved
-    part is [C14_mcrew_exactly_once] + [C14_mcrew_rule_is_addressed]. *)
-From Sheens Require Import Spec.MCrewSpec Proofs.MCrewFacts Proofs.MCrewRouting.
+    part is [C14_mcrew_exactly_once] + [C14_mcrew_rule_is_addressed].
+
+    With the store DOWN ([up s = false]) the real service still routes,
+    reports and feeds back every emitted message; only no machine state
+    advances: [C14_mcrew_down_*], [C14_mcrew_*store_independent*],
+    [C14_mcrew_down_frozen*].  [stays wk services m msg]
+    (Proofs/MCrewRouteDown.v, restated by [C14_mcrew_stays_means]): the
+    write-back of the end states that the recipients of [msg] reach is the
+    identity on the crew [m]. *)
+From Sheens Require Import Spec.MCrewSpec Proofs.MCrewFacts Proofs.MCrewRouting Proofs.MCrewRouteDown
+     Corr.MCrewCorr.
 From Coq Require Import Permutation.
 
 (** exactly once to each machine the container's rule selects and to no
@@ -108,6 +117,206 @@ Theorem C14_mcrew_full_refuted : ~ C14_mcrew_full.
 Proof. exact full_statement_refuted. Qed.
 Print Assumptions C14_mcrew_full_refuted.
 
+(** ---- the store down ------------------------------------------------------------------
+    a Process call with the store down changes nothing and still returns
+    every walk: the recipients' walks from the states in memory *)
+Theorem C14_mcrew_down_process :
+  forall spec_ok wk services msg s,
+    up s = false ->
+    let mids := recipients (route services msg) (mem s) in
+    let ws := walks wk (mem s) mids msg in
+    do_process spec_ok wk services msg s
+    = if specs_ok spec_ok (mem s) mids
+      then (s, PProcessed (negb (is_nil (changes ws))) ws)
+      else (s, PSpecErr).
+Proof. exact process_down. Qed.
+Print Assumptions C14_mcrew_down_process.
+
+(** ... which are: one entry per recipient (every recipient is a machine of
+    the crew), in the order of the recipients, with what that machine's walk
+    returned and emitted; they are the walks the same call returns with the
+    store up, whatever the store holds *)
+Theorem C14_mcrew_down_reports_every_walk :
+  forall spec_ok wk services msg s,
+    up s = false ->
+    specs_ok spec_ok (mem s) (recipients (route services msg) (mem s)) = true ->
+    let mids := recipients (route services msg) (mem s) in
+    let ws := walks wk (mem s) mids msg in
+    exists r,
+      do_process spec_ok wk services msg s = (s, r)
+      /\ walked_of r = mids
+      /\ emitted_of r = flat_map (fun mw : string * wobs => wo_emitted (snd mw)) ws
+      /\ ws = flat_map (fun mid =>
+                          match mget mid (mem s) with
+                          | Some rc => [(mid, mk_wobs (r_node rc, r_bs rc)
+                                                      (fst (wk (r_spec rc) mid rc msg))
+                                                      (snd (wk (r_spec rc) mid rc msg)))]
+                          | None => []
+                          end) mids
+      /\ (forall st, exists err,
+             snd (do_process spec_ok wk services msg (mk_svc (mem s) st true)) = PProcessed err ws).
+Proof. exact process_down_reports. Qed.
+Print Assumptions C14_mcrew_down_reports_every_walk.
+
+(** what one round of the feedback loop logs, reports and re-submits is a
+    function of the in-memory crew: not of the store's contents, not of
+    whether it is up *)
+Theorem C14_mcrew_round_reports_from_memory :
+  forall spec_ok wk services i f g,
+    mem (fd_svc f) = mem (fd_svc g) ->
+    fd_pending f = fd_pending g -> fd_log f = fd_log g -> fd_reported f = fd_reported g ->
+    fd_pending (feed_one spec_ok wk services i f) = fd_pending (feed_one spec_ok wk services i g)
+    /\ fd_log (feed_one spec_ok wk services i f) = fd_log (feed_one spec_ok wk services i g)
+    /\ fd_reported (feed_one spec_ok wk services i f) = fd_reported (feed_one spec_ok wk services i g).
+Proof. exact feed_one_reports_indep. Qed.
+Print Assumptions C14_mcrew_round_reports_from_memory.
+
+Theorem C14_mcrew_stays_means :
+  forall wk services m msg,
+    stays wk services m msg
+    <-> set_states (changes (walks wk m (recipients (route services msg) m) msg)) m = m.
+Proof. exact stays_means. Qed.
+Print Assumptions C14_mcrew_stays_means.
+
+(** it holds when every recipient's walk ends nowhere or in the state it started from *)
+Theorem C14_mcrew_stays_same_state :
+  forall wk services m msg,
+    msorted m ->
+    (forall mid w, In (mid, w) (walks wk m (recipients (route services msg) m) msg) ->
+                   wo_to w = None \/ wo_to w = Some (wo_from w)) ->
+    stays wk services m msg.
+Proof. exact stays_same_state. Qed.
+Print Assumptions C14_mcrew_stays_same_state.
+
+(** a round does not depend on the store - memory afterwards included - when
+    the message it takes leaves every recipient where it is ([st], [u]: the
+    service with any store, up or not; [st']: the same crew with the store down) *)
+Theorem C14_mcrew_round_store_independent :
+  forall spec_ok wk services i m st st' u pend log rep,
+    (forall msg, In msg pend -> stays wk services m msg) ->
+    let fu := feed_one spec_ok wk services i (mk_fed (mk_svc m st u) pend log rep) in
+    let fd := feed_one spec_ok wk services i (mk_fed (mk_svc m st' false) pend log rep) in
+    fd_pending fu = fd_pending fd /\ fd_log fu = fd_log fd /\ fd_reported fu = fd_reported fd
+    /\ mem (fd_svc fu) = mem (fd_svc fd) /\ mem (fd_svc fd) = m.
+Proof. exact feed_one_store_independent. Qed.
+Print Assumptions C14_mcrew_round_store_independent.
+
+(** the same with the weakest hypothesis: only the message taken matters *)
+Theorem C14_mcrew_round_store_independent_pick :
+  forall spec_ok wk services i m st st' u pend log rep,
+    (forall msg rest,
+        take_nth (Nat.modulo i (Nat.max 1 (List.length pend))) pend = Some (msg, rest) ->
+        stays wk services m msg) ->
+    let fu := feed_one spec_ok wk services i (mk_fed (mk_svc m st u) pend log rep) in
+    let fd := feed_one spec_ok wk services i (mk_fed (mk_svc m st' false) pend log rep) in
+    fd_pending fu = fd_pending fd /\ fd_log fu = fd_log fd /\ fd_reported fu = fd_reported fd
+    /\ mem (fd_svc fu) = mem (fd_svc fd) /\ mem (fd_svc fd) = m.
+Proof. exact feed_one_store_independent_pick. Qed.
+Print Assumptions C14_mcrew_round_store_independent_pick.
+
+(** all rounds, under every schedule: [P] holds of the pending messages, is
+    closed under what the crew [m] emits, and [m] stays put on it *)
+Theorem C14_mcrew_feed_store_independent :
+  forall spec_ok wk services (P : json -> Prop) m,
+    (forall msg, P msg -> stays wk services m msg) ->
+    (forall msg, P msg ->
+                 forall e, In e (flat_map (fun mw : string * wobs => wo_emitted (snd mw))
+                                          (walks wk m (recipients (route services msg) m) msg)) -> P e) ->
+    forall choose st st' u pend log rep,
+      Forall P pend ->
+      let fu := feed spec_ok wk services choose (mk_fed (mk_svc m st u) pend log rep) in
+      let fd := feed spec_ok wk services choose (mk_fed (mk_svc m st' false) pend log rep) in
+      fd_pending fu = fd_pending fd /\ fd_log fu = fd_log fd /\ fd_reported fu = fd_reported fd
+      /\ mem (fd_svc fu) = mem (fd_svc fd) /\ mem (fd_svc fd) = m.
+Proof. exact feed_store_independent. Qed.
+Print Assumptions C14_mcrew_feed_store_independent.
+
+(** the first round never depends on the store: the root message is walked
+    from the crew in memory (only the memory and the store afterwards differ) *)
+Theorem C14_mcrew_first_round_store_independent :
+  forall spec_ok wk services i msg m st st' u u',
+    let f := feed_one spec_ok wk services i (submit msg (mk_svc m st u)) in
+    let g := feed_one spec_ok wk services i (submit msg (mk_svc m st' u')) in
+    fd_log f = fd_log g /\ fd_reported f = fd_reported g /\ fd_pending f = fd_pending g.
+Proof. exact first_round_store_independent. Qed.
+Print Assumptions C14_mcrew_first_round_store_independent.
+
+(** later rounds do: without [stays] the statements above are false of the
+    model (a machine that did not advance reacts differently to the next message) *)
+Theorem C14_mcrew_second_round_store_dependent :
+  let f u := feed_m [0; 0] (submit dep_root (mk_svc dep_crew dep_crew u)) in
+  map msg_id (fd_reported (f true)) = [JStr "x"; JStr "y"]
+  /\ map msg_id (fd_reported (f false)) = [JStr "x"]
+  /\ map (fun e : json * list string => (msg_id (fst e), snd e)) (fd_log (f true))
+     = [(JStr "a", ["m0"]); (JStr "x", ["m0"])]
+  /\ map (fun e : json * list string => (msg_id (fst e), snd e)) (fd_log (f false))
+     = [(JStr "a", ["m0"]); (JStr "x", ["m0"])].
+Proof. exact second_round_store_dependent. Qed.
+Print Assumptions C14_mcrew_second_round_store_dependent.
+
+Theorem C14_mcrew_feed_store_independent_unconditional_refuted :
+  ~ (forall choose root m st,
+        fd_reported (feed_m choose (submit root (mk_svc m st true)))
+        = fd_reported (feed_m choose (submit root (mk_svc m st false)))).
+Proof. exact feed_store_independent_unconditional_refuted. Qed.
+Print Assumptions C14_mcrew_feed_store_independent_unconditional_refuted.
+
+Theorem C14_mcrew_round_mem_unconditional_refuted :
+  ~ (forall i m st pend log rep,
+        mem (fd_svc (feed_one spec_ok_m wk_m mcrew_services i (mk_fed (mk_svc m st true) pend log rep)))
+        = mem (fd_svc (feed_one spec_ok_m wk_m mcrew_services i (mk_fed (mk_svc m st false) pend log rep)))).
+Proof. exact feed_one_mem_unconditional_refuted. Qed.
+Print Assumptions C14_mcrew_round_mem_unconditional_refuted.
+
+(** a round with the store down, spelled out: the message is walked by its
+    recipients in the states they are in, everything they emit is reported
+    and re-submitted, the service is left as it was *)
+Theorem C14_mcrew_down_round :
+  forall spec_ok wk services i f msg rest,
+    up (fd_svc f) = false ->
+    take_nth (Nat.modulo i (Nat.max 1 (List.length (fd_pending f)))) (fd_pending f) = Some (msg, rest) ->
+    specs_ok spec_ok (mem (fd_svc f)) (recipients (route services msg) (mem (fd_svc f))) = true ->
+    let mids := recipients (route services msg) (mem (fd_svc f)) in
+    let em := flat_map (fun mw : string * wobs => wo_emitted (snd mw))
+                       (walks wk (mem (fd_svc f)) mids msg) in
+    feed_one spec_ok wk services i f
+    = mk_fed (fd_svc f) (rest ++ em) (fd_log f ++ [(msg, mids)]) (fd_reported f ++ em).
+Proof. exact feed_one_down. Qed.
+Print Assumptions C14_mcrew_down_round.
+
+(** the store down throughout: the whole feedback run is that of a crew
+    frozen at its initial states - memory and store never change - under
+    every schedule ... *)
+Theorem C14_mcrew_down_frozen :
+  forall spec_ok wk services choose f,
+    up (fd_svc f) = false -> fd_svc (feed spec_ok wk services choose f) = fd_svc f.
+Proof. exact feed_down_frozen. Qed.
+Print Assumptions C14_mcrew_down_frozen.
+
+(** ... and for the first-in first-out iteration ([feed_iter]: take the
+    oldest pending call, at most [fuel] times), whatever the machines do ... *)
+Theorem C14_mcrew_down_frozen_fifo :
+  forall spec_ok wk services fuel msg m st,
+    let f := feed_iter spec_ok wk services fuel (submit msg (mk_svc m st false)) in
+    mem (fd_svc f) = m /\ sto (fd_svc f) = st /\ up (fd_svc f) = false.
+Proof. exact feed_iter_down_mem_sto. Qed.
+Print Assumptions C14_mcrew_down_frozen_fifo.
+
+(** ... which on the concrete machines is the iteration the correspondence
+    run (Corr/MCrewCorr.v, [route_agrees]) compares the Go observations with *)
+Theorem C14_mcrew_feed_fifo_is_iter :
+  forall services fuel f,
+    feed_fifo services fuel f = feed_iter spec_ok_m wk_m services fuel f.
+Proof. exact feed_fifo_is_iter. Qed.
+Print Assumptions C14_mcrew_feed_fifo_is_iter.
+
+Theorem C14_mcrew_down_frozen_feed_fifo :
+  forall services fuel msg m st,
+    let f := feed_fifo services fuel (submit msg (mk_svc m st false)) in
+    mem (fd_svc f) = m /\ sto (fd_svc f) = st /\ up (fd_svc f) = false.
+Proof. exact feed_fifo_down_mem_sto. Qed.
+Print Assumptions C14_mcrew_down_frozen_feed_fifo.
+
 (** ---- non-vacuity: a message tree on the concrete recorder machines ---------------
     m0 receives "a" and forwards "b" (to m1) and "c" (to everybody); the
     schedule takes the second pending call first. *)
@@ -123,4 +332,55 @@ Example C14_mcrew_example :
   /\ map msg_id (fd_reported f) = [JStr "b"; JStr "c"]
   /\ fd_pending f = []
   /\ d12_target ex_root = false.
+Proof. vm_compute. repeat split; reflexivity. Qed.
+
+(** ---- non-vacuity, store down: a recorder and a flip-flop; the root goes to
+    m0 and forwards "b" (to m1) and "c" (to everybody) *)
+Definition ex_crew2 : mmap := [("m0", mk_mrec "rec" "start" []); ("m1", mk_mrec "flip" "start" [])].
+
+(** first round: the same log, reports and pending calls, store up or down;
+    memory advanced only with the store up *)
+Example C14_mcrew_down_first_round_example :
+  let f u := feed_one spec_ok_m wk_m mcrew_services 0 (submit ex_root (mk_svc ex_crew2 ex_crew2 u)) in
+  msorted ex_crew2
+  /\ fd_log (f true) = fd_log (f false)
+  /\ fd_reported (f true) = fd_reported (f false)
+  /\ fd_pending (f true) = fd_pending (f false)
+  /\ fd_log (f false) = [(ex_root, ["m0"])]
+  /\ map msg_id (fd_reported (f false)) = [JStr "b"; JStr "c"]
+  /\ mem (fd_svc (f false)) = ex_crew2
+  /\ map (fun e : string * mrec => (fst e, log_of (snd e))) (mem (fd_svc (f true)))
+     = [("m0", [JStr "a"]); ("m1", [])].
+Proof. vm_compute. repeat split; reflexivity. Qed.
+
+(** five rounds with the store down: three messages processed, two reported,
+    nothing pending, memory and store as at the start; with the store up the
+    same messages, and the machines have their logs *)
+Example C14_mcrew_down_frozen_example :
+  let f u := feed_fifo mcrew_services 5 (submit ex_root (mk_svc ex_crew2 ex_crew2 u)) in
+  mem (fd_svc (f false)) = ex_crew2
+  /\ sto (fd_svc (f false)) = ex_crew2
+  /\ map (fun e : json * list string => (msg_id (fst e), snd e)) (fd_log (f false))
+     = [(JStr "a", ["m0"]); (JStr "b", ["m1"]); (JStr "c", ["m0"; "m1"])]
+  /\ map msg_id (fd_reported (f false)) = [JStr "b"; JStr "c"]
+  /\ fd_pending (f false) = []
+  /\ fd_log (f true) = fd_log (f false)
+  /\ map (fun e : string * mrec => (fst e, log_of (snd e))) (mem (fd_svc (f true)))
+     = [("m0", [JStr "a"; JStr "c"]); ("m1", [JStr "b"; JStr "c"])]
+  /\ f false = feed_iter spec_ok_m wk_m mcrew_services 5 (submit ex_root (mk_svc ex_crew2 ex_crew2 false)).
+Proof. vm_compute. repeat split; reflexivity. Qed.
+
+(** the hypotheses of the store-independence theorems can be met: two "deaf"
+    machines are presented the root message and stay where they are *)
+Definition ex_deaf2 : mmap := [("m0", mk_mrec "deaf" "start" []); ("m1", mk_mrec "deaf" "start" [])].
+Definition ex_all : json := JObj [("fwd", JArr []); ("id", JStr "a")].
+
+Example C14_mcrew_stays_example :
+  msorted ex_deaf2
+  /\ stays wk_m mcrew_services ex_deaf2 ex_all
+  /\ map (fun mw : string * wobs => (fst mw, wo_to (snd mw)))
+         (walks wk_m ex_deaf2 (recipients (route mcrew_services ex_all) ex_deaf2) ex_all)
+     = [("m0", None); ("m1", None)]
+  /\ fd_log (feed_m [0] (submit ex_all (mk_svc ex_deaf2 ex_deaf2 false))) = [(ex_all, ["m0"; "m1"])]
+  /\ fd_log (feed_m [0] (submit ex_all (mk_svc ex_deaf2 ex_deaf2 true))) = [(ex_all, ["m0"; "m1"])].
 Proof. vm_compute. repeat split; reflexivity. Qed.
